@@ -121,7 +121,7 @@ def ordinary_mask_union(run, prog, rule, where, thorough=False):
             parts = cm.flatten_bytes(list(h.a)) if isinstance(h, Term) and h.op == 'sha256' else None
             want = cm.spec_d1(2, False, ma | mb)
             lm = c.attrs['level_mask'].attrs.get('_m')
-            good = parts is not None and parts[0] == ('k', want) and isinstance(lm, K) and lm.v == (ma | mb)
+            good = bool(parts) and parts[0] == ('k', want) and isinstance(lm, K) and lm.v == (ma | mb)
             why = f'level mask {vrepr(lm)}, first hashed byte {parts[0][1] if parts and parts[0][0] == "k" else "?"}; specification: mask {ma | mb}, d1 = 2 + 32*({ma:03b} | {mb:03b}) = {want}'
         except RaiseEx as e:
             good, why = False, f'raises {e}'
